@@ -12,6 +12,12 @@ struct CorpusFile {
     test_words: Vec<String>,
     example_rules: Vec<String>,
     example_words: Vec<String>,
+    #[serde(default)]
+    doc_rules: Vec<String>,
+    #[serde(default)]
+    doc_into: Vec<String>,
+    #[serde(default)]
+    doc_from: Vec<String>,
 }
 
 pub struct Data {
@@ -19,6 +25,10 @@ pub struct Data {
     pub test_words: Vec<String>,
     pub example_rules: Vec<String>,
     pub example_words: Vec<String>,
+    /// rule / alias lines taken from doc/doc.md that the library accepts
+    pub doc_rules: Vec<String>,
+    pub doc_into: Vec<String>,
+    pub doc_from: Vec<String>,
     /// all cardinal graphemes, in file order
     pub cardinals: Vec<String>,
     /// cardinals that are a single char (safe building blocks for words)
@@ -67,6 +77,9 @@ impl Data {
             test_words: cf.test_words,
             example_rules: cf.example_rules,
             example_words: cf.example_words,
+            doc_rules: cf.doc_rules,
+            doc_into: cf.doc_into,
+            doc_from: cf.doc_from,
             cardinals,
             simple_cardinals,
             tie_groups,
@@ -148,9 +161,32 @@ pub fn dense_word(r: &mut Rng) -> String {
     w
 }
 
+/// syllables carrying tone numbers (the manual's notation: digits after the syllable)
+pub fn tone_word(r: &mut Rng) -> String {
+    const SYL: [&str; 10] = ["ma", "a", "pa", "han", "y", "ta", "ka", "i", "san", "u"];
+    const TONES: [&str; 10] = ["55", "35", "214", "51", "5", "1", "33", "2141", "3", "12"];
+    let n = r.range(1, 3);
+    let mut w = String::new();
+    for i in 0..n {
+        if i > 0 {
+            w.push('.');
+        }
+        let syl: &str = *r.pick(&SYL[..]);
+        w.push_str(syl);
+        if r.chance(4, 5) {
+            let t: &str = *r.pick(&TONES[..]);
+            w.push_str(t);
+        }
+    }
+    w
+}
+
 pub fn gen_word(d: &Data, r: &mut Rng) -> String {
     if r.chance(1, 4) {
         return dense_word(r);
+    }
+    if r.chance(1, 8) {
+        return tone_word(r);
     }
     match r.below(10) {
         0..=2 => r.pick(&d.test_words).clone(),
@@ -260,6 +296,13 @@ pub fn gen_rule(d: &Data, r: &mut Rng) -> String {
     if r.chance(1, 20) {
         return r.pick(&RUNTIME_ERR_RULES[..]).to_string();
     }
+    if !d.doc_rules.is_empty() && r.chance(1, 8) {
+        return r.pick(&d.doc_rules).clone();
+    }
+    if r.chance(1, 16) {
+        // syllable-boundary and tone rules: joining syllables merges their tones
+        return r.pick(&["$ > * / V_V", "$ > * / _C#", "% > [tone: 33]", "%:[tone: 214] > [tone:35] / _%:[tone: 214]", "V > [tone: 35], [tone: 51] / _ʔ, _s", "$ > * / V_"][..]).to_string();
+    }
     match r.below(16) {
         0..=2 => r.pick(&d.test_rules).clone(),
         3 => r.pick(&d.example_rules).clone(),
@@ -312,6 +355,17 @@ pub const ALIAS_FROM: [&str; 10] = [
     "C:[+hi, -bk] => +@{acute}",
     "C => +@{macron}",
 ];
+
+pub fn gen_aliases_with_doc(d: &Data, r: &mut Rng) -> (Vec<String>, Vec<String>) {
+    let (mut into, mut from) = gen_aliases(r);
+    if !d.doc_into.is_empty() && r.chance(1, 3) {
+        into.push(r.pick(&d.doc_into).clone());
+    }
+    if !d.doc_from.is_empty() && r.chance(1, 3) {
+        from.push(r.pick(&d.doc_from).clone());
+    }
+    (into, from)
+}
 
 pub fn gen_aliases(r: &mut Rng) -> (Vec<String>, Vec<String>) {
     let mut into = Vec::new();
@@ -385,7 +439,7 @@ pub fn gen_call(d: &Data, r: &mut Rng) -> Call {
             }
         }
     }
-    let (into, from) = if r.chance(1, 4) { gen_aliases(r) } else { (vec![], vec![]) };
+    let (into, from) = if r.chance(1, 4) { gen_aliases_with_doc(d, r) } else { (vec![], vec![]) };
     let from = if kind == "run" { from } else { vec![] };
     Call { kind: kind.into(), rules: groups, words, into, from }
 }
